@@ -56,6 +56,18 @@ def special_cases():
                 bytes([0x72, 0xb5, 0x4a, 0x86]) + b"\x00" * 4 + (32).to_bytes(4, "little") + b"\x00" * 4 + (0xFFFFFFFF).to_bytes(4, "little") + (0xFFFFFFFF).to_bytes(4, "little") + b"\x00" * 8,
                 b"", b"\x00", b"\x00" * 255):
         c.append(esc("\x1bPCTerm:Font:1:" + base64.b64encode(raw).decode() + "\x1b\\"))
+    # PSF2 headers with every combination of extreme glyph count / glyph size / height / width (header only: the declared
+    # sizes must not drive any loop or allocation), and PSF1 headers with every glyph size class
+    ext = (0, 1, 256, 0x7FFFFFFF, 0xFFFFFFFF)
+    for ln in ext:
+        for cs in ext:
+            for hh in (0, 16, 0xFFFFFFFF):
+                for ww in (0, 8, 0xFFFFFFFF):
+                    raw = bytes([0x72, 0xb5, 0x4a, 0x86]) + b"".join(v.to_bytes(4, "little") for v in (0, 32, 0, ln, cs, hh, ww))
+                    c.append(esc("\x1bPCTerm:Font:1:" + base64.b64encode(raw).decode() + "\x1b\\"))
+    for cs in (0, 1, 16, 255):
+        for mode in (0, 2):
+            c.append(esc("\x1bPCTerm:Font:1:" + base64.b64encode(bytes([0x36, 0x04, mode, cs]) + b"\x55" * 64).decode() + "\x1b\\"))
     # music with extreme numbers
     c.append(esc(f"\x1b[MFT{big}L{big}O6B############.........\x0e"))
     # text-window resize then big motions
@@ -144,6 +156,14 @@ def run():
         shards.append((f"t{k}", p))
     traces, crashes = termlib.run_shards(c, shards, procs=n_shards, case_timeout=5, mem_mb=1024)
     c.sample_from(traces[0], 2)
+    # binary file headers declaring extreme sizes (the last clause of the quantifier): the loader driver of C02 with its
+    # structure-aware faults, judged here for load time (<= 5 s) and resource limits
+    from props import c02
+    n_rep = len(c.reports)
+    g_l, ltraces, lcrashes = c02.drive_loaders(c)
+    loader_reports, c.reports = c.reports[n_rep:], c.reports[:n_rep]
+    c.extra["file_loads_timed"] = sum(int(r.get("r4", 0)) for r in loader_reports)
+    c.extra["loader_worker_crashes"] = len(lcrashes)
     c.extra["cases"] = len(cases)
     c.extra["short_inputs_under_64_bytes"] = sum(1 for _, s, _m in cases if len(s) < 64)
     c.extra["worker_crashes"] = len(crashes)
@@ -152,7 +172,7 @@ def run():
     c.rule = ("the complete control-function table: every CSI final byte 0x40..0x7E x 8 intermediates x every parameter vector of length 0..2 over {0,1,80,25,2^16,10^6,2^31-1} "
               "(lengths 3..6 seeded), behind preludes (scrollback, 2^31 margins, insert mode + region); DCS macros (self/mutual recursion, chains, fan-out, hex repeat groups), sixel raster / "
               "repeat / colour headers, products mode switch x margins x cursor motion x printing tail with parameters 65536 / 10^6 / 2^31-1 (4800; quick: 1600 of them), every TLC-exported sixel payload of <= 4 tokens that contains a repeat count of 4096 or 9999999 (quick: 4000 of them), custom-font DCS payloads, Avatar repeats, music numbers. Each case runs under a 5 s watchdog and a 1 GiB address-space limit in a worker; a timeout, "
-              "allocation failure or stack overflow is a crash event judged by Trace_Term (Limit), as is a single character step > 5 s or a single character that grows the row table by more than one screenful plus one macro expansion (Growth). R1: MC_Term huge slice - GrowthBounded on the model. "
+              "allocation failure or stack overflow is a crash event judged by Trace_Term (Limit), as is a single character step > 5 s or a single character that grows the row table by more than one screenful plus one macro expansion (Growth). Binary files: every load of the C02 loader driver (structure-aware faults of Loader.tla incl. pairs of header fields at their extremes on header-only files) must finish within 5 s and inside the worker limits (LoadTime, LoadLimit). R1: MC_Term huge slice - GrowthBounded on the model. "
               "distinct_nontrivial = number of distinct (emulation, byte string) cases.")
     c.assumptions = ["wall-clock limit 5 s per case and RLIMIT_AS 1 GiB per worker on this machine (generous fixed limits, as the property states)",
                      "background sixel decodes are joined before the case ends so their cost is attributed to it"]
